@@ -69,13 +69,17 @@ def kind_arms(loop_or_fn: ast.AST, scopes: list = None, ctx=None) -> dict:
     def test_kinds(t: ast.AST):
         if isinstance(t, ast.BoolOp) and isinstance(t.op, ast.Or):
             # `kind == "L" or kind == "E"` is `kind in ("L", "E")`
+            # a disjunct that does not look at the kind (`nowiki or kind == "N"`) only widens the arm: whenever the kind is
+            # one of those tested, the arm is entered
             acc = []
             for v in t.values:
+                if not any(isinstance(x, ast.Name) and x.id == "kind" for x in ast.walk(v)):
+                    continue
                 ks, _ = test_kinds(v)
                 if ks is None:
                     return None, False
                 acc.extend(k for k in ks if k not in acc)
-            return acc, True
+            return (acc, True) if acc else (None, False)
         if isinstance(t, ast.Compare) and len(t.ops) == 1 and isinstance(t.left, ast.Name) and t.left.id == "kind":
             rhs = t.comparators[0]
             if isinstance(t.ops[0], ast.Eq) and isinstance(rhs, ast.Constant) and isinstance(rhs.value, str):
